@@ -166,6 +166,53 @@ theorem sync_marker_block_ends_on_a_byte_boundary (pos : Nat) :
   unfold padLen
   omega
 
+open Model.Core Spec in
+theorem blocksBits_append : ∀ (bs cs : List EncBlock) (pos : Nat),
+    blocksBits pos (bs ++ cs) = blocksBits pos bs ++ blocksBits (pos + (blocksBits pos bs).length) cs := by
+  intro bs
+  induction bs with
+  | nil => intro cs pos; simp [blocksBits]
+  | cons b rest ih =>
+    intro cs pos
+    simp only [List.cons_append, blocksBits, ih, List.append_assoc, List.length_append]
+    congr 3
+    omega
+
+open Model.Core Spec in
+theorem expandBlocks_append : ∀ (bs cs : List EncBlock) (out : Array UInt8),
+    expandBlocks #[] out (bs ++ cs) = expandBlocks #[] (expandBlocks #[] out bs) cs := by
+  intro bs
+  induction bs with
+  | nil => intro cs out; rfl
+  | cons b rest ih => intro cs out; simp only [List.cons_append, expandBlocks, ih]
+
+open Model.Core Spec in
+theorem PrefixOk_append (maxDist : Nat) : ∀ (bs cs : List EncBlock) (out : Array UInt8),
+    PrefixOk maxDist out bs → PrefixOk maxDist (expandBlocks #[] out bs) cs → PrefixOk maxDist out (bs ++ cs) := by
+  intro bs
+  induction bs with
+  | nil => intro cs out _ h; exact h
+  | cons b rest ih =>
+    intro cs out h hc
+    obtain ⟨h1, h2, h3, h4⟩ := h
+    exact ⟨h1, h2, h3, ih cs _ h4 hc⟩
+
+open Model.Core Spec in
+/-- WHATEVER STANDS BEFORE IT, THE SYNC MARKER MAKES A FLUSH POINT: any sequence of non-final blocks
+    (ending at any bit position) followed by the empty stored block is again such a sequence, ends on a
+    byte boundary, and expands to the same bytes — so `flush_point_prefix_decodes_to_all_input` applies to
+    the output of every sync / full flush that is a conforming encoding of the input so far. -/
+theorem sync_marker_makes_a_flush_point (bs : List EncBlock) (pos : Nat) (out : Array UInt8) (hok : PrefixOk 32768 out bs) :
+    PrefixOk 32768 out (bs ++ [encStored false []]) ∧
+    (pos + (blocksBits pos (bs ++ [encStored false []])).length) % 8 = 0 ∧
+    expandBlocks #[] out (bs ++ [encStored false []]) = expandBlocks #[] out bs := by
+  refine ⟨PrefixOk_append 32768 bs _ out hok ⟨rfl, .stored false [] (by simp) (by simp), trivial, trivial⟩, ?_, ?_⟩
+  · rw [blocksBits_append, List.length_append, ← Nat.add_assoc]
+    have := (sync_marker_block_ends_on_a_byte_boundary (pos + (blocksBits pos bs).length)).2
+    simpa [blocksBits] using this
+  · rw [expandBlocks_append]
+    rfl
+
 example : ({ out := [], buf := 5, n := 3 } : BW).Inv := by unfold BW.Inv; decide
 example : (syncMarker { out := [7], buf := 5, n := 3 }).out = [7, 5, 0, 0, 255, 255] := by decide +kernel
 
